@@ -33,7 +33,7 @@ def ld(v, e):
         from symx import snp
 
         return snp._ldexp1(v, e)
-    return float(np.ldexp(v, int(e)))
+    return float(np.ldexp(v, int(np.asarray(e).reshape(-1)[0])))
 
 
 def setup(E, shape):
@@ -165,6 +165,11 @@ def h_transform(E, shape):
             x = [E.real(f"x{r}_{j}") for j in range(N)]
             y = [E.real(f"y{r}_{i}") for i in range(m)]
         pts.append((x, y))
+        if shape.get("patterns_by_round"):
+            # the sparsity pattern of the user's Jacobian / Hessian depends on the evaluation point
+            pr = shape["patterns_by_round"][min(r, len(shape["patterns_by_round"]) - 1)]
+            spec["jac_pattern"] = [tuple(p) for p in pr["jac"]]
+            spec["hess_pattern"] = [tuple(p) for p in pr["hess"]]
         ref = reference(E, spec, x, y)
         xa, ya = arr(x), arr(y)
         nc = len(spec["calls"])
